@@ -6,7 +6,8 @@
 From Coq Require Import List ZArith Lia Bool Arith.
 Import ListNotations.
 Require Import Vault Row Table Grid Tableabs Transform Transformspec Transformproof Transformproof2 Transformproof3
-               Transformproof4 Transformproof5 Transformproof7 Transformproof9 Transformproof10 Transformproof11 Transformproof12 Transformproof13 Transformproof14 Transformchk.
+               Transformproof4 Transformproof5 Transformproof7 Transformproof9 Transformproof10 Transformproof11 Transformproof12 Transformproof13 Transformproof14 Transformproof15 Transformproof16
+               Transformproof17 Transformproof18 Transformproof19 Transformchk Csv Csvproof.
 Open Scope Z_scope.
 
 (* ================= rstrip ================= *)
@@ -182,6 +183,124 @@ Theorem C17_set_span_law_holds : forall (a : calg) (x y z t mid : Z) (g g' : gri
 Proof. exact g_set_span_law. Qed.
 Print Assumptions C17_set_span_law_holds.
 
+Theorem C17_del_span_law_holds : forall (a : calg) (x y : Z) (st st' : tstate) (r : bool), WF st -> 0 <= x -> 0 <= y ->
+  alg_ok_for a (XDelSpan x y) (abs_t st) = true -> t_del_span a x y st = Some (st', r) ->
+  del_span_law a x y r (abs_t st) (abs_t st') = true /\ WF st'.
+Proof. exact del_span_law_model. Qed.
+Print Assumptions C17_del_span_law_holds.
+
+(* ================= set_span(area, merge=True) ================= *)
+(* which value survives and in which order the values are concatenated: every cell of the area that is not empty
+   (aggressive reading) and whose value is not None is cleared to the bare cell (content and style); when at least one
+   of them holds a value other than "" the first cell becomes Cell(v) — content ca_join of the contents of those
+   contributing cells taken row by row, left to right (join_ids), style dropped; cells whose value is None keep their
+   content; then the marks as for merge=False; nothing changes outside the area.  (x_step computes the merged content
+   itself: merge_mid; ca_join is the value-level join "the single value, else ' '.join(str(v) for the truthy ones)",
+   supplied per list of contents by the harness.) *)
+Theorem C17_set_span_merge_explicit : forall (a : calg) (x y z t : Z) (st st' : tstate), WF st -> 0 <= x <= z -> 0 <= y <= t ->
+  x_step a true st (XSetSpan x y z t true 0) = Some (st', true) ->
+  forall i j, 0 <= i -> 0 <= j ->
+  gcell i j (abs_t st') =
+    let c := gcell i j (abs_t st) in
+    if in_area x y z t i j then
+      (if (i =? x) && (j =? y) then
+         (if any_contrib a (g_area_cells x y z t (abs_t st))
+          then (ca_add_span a (ca_join a (join_ids a (g_area_cells x y z t (abs_t st)))) (z - x + 1) (t - y + 1), 0)
+          else (ca_add_span a (fst (merge_clear a c)) (z - x + 1) (t - y + 1), snd (merge_clear a c)))
+       else cov a (merge_clear a c))
+    else c.
+Proof. exact set_span_merge_explicit_model. Qed.
+Print Assumptions C17_set_span_merge_explicit.
+
+Theorem C17_set_span_merge_law_holds : forall (a : calg) (x y z t : Z) (st st' : tstate) (r : bool),
+  WF st -> 0 <= x <= z -> 0 <= y <= t -> alg_ok_for a (XSetSpan x y z t true 0) (abs_t st) = true ->
+  x_step a true st (XSetSpan x y z t true 0) = Some (st', r) ->
+  set_span_merge_law a x y z t r (abs_t st) (abs_t st') = true.
+Proof. exact set_span_merge_law_model. Qed.
+Print Assumptions C17_set_span_merge_law_holds.
+
+(* ================= transpose(coord) ================= *)
+Theorem C17_transpose_area_refines : forall (x y z t : Z) (st : tstate), WF st ->
+  0 <= Z.min x (twidth st - 1) -> 0 <= Z.min y (theight st - 1) ->
+  exists st', t_transpose_area x y z t st = Some st' /\ WF st' /\ abs_t st' = g_transpose_area x y z t (abs_t st).
+Proof. exact transpose_area_refines. Qed.
+Print Assumptions C17_transpose_area_refines.
+
+(* for an area inside the table: the cell at (x+b, y+a) afterwards is the cell at (x+a, y+b) before, on the block that
+   the stored part of the area fills once transposed (for ragged rows: as many rows as the longest stored part, completed
+   with empty cells); what is left of a non-square source rectangle is blanked ("some cells may be overwritten" of the
+   docstring: exactly those of the target block); every other coordinate reads as before *)
+Theorem C17_transpose_area_law : forall (x y z t : Z) (st : tstate), WF st ->
+  0 <= x <= z -> z < twidth st -> 0 <= y <= t -> t < theight st ->
+  exists st', t_transpose_area x y z t st = Some st' /\ WF st' /\
+  forall i j, 0 <= i -> 0 <= j ->
+  gcell i j (abs_t st') =
+    if in_block x y (zip_longest empty_cell (g_area_read x y z t (abs_t st))) i j then gcell (x + (j - y)) (y + (i - x)) (abs_t st)
+    else if negb (z - x + 1 =? t - y + 1) && in_area x y z t i j then empty_cell
+    else gcell i j (abs_t st).
+Proof. exact transpose_area_law_model. Qed.
+Print Assumptions C17_transpose_area_law.
+
+Theorem C17_transpose_area_law_holds : forall (x y z t : Z) (g : gridT),
+  transpose_area_law x y z t g (g_transpose_area x y z t g) = true.
+Proof. exact g_transpose_area_law_holds. Qed.
+Print Assumptions C17_transpose_area_law_holds.
+
+(* ================= compositions ================= *)
+Theorem C17_rstrip_after_transpose_keeps_values : forall (a : calg) (aggr : bool) (t : tstate) (x y : Z), WF t ->
+  cell_empty a aggr empty_cell = true -> 0 <= x < Z.of_nat (max_length (grows (abs_t t))) -> 0 <= y ->
+  cell_empty a aggr (gcell x y (abs_t t)) = false ->
+  gcell y x (abs_t (t_rstrip a aggr (t_transpose t))) = gcell x y (abs_t t).
+Proof. exact rstrip_after_transpose_keeps. Qed.
+Print Assumptions C17_rstrip_after_transpose_keeps_values.
+
+(* a span survives optimize_width and rstrip: every cell of the spanned area keeps its coordinates and its marks
+   (a covered or spanned cell is not empty); set_span on it again is refused (C17_set_span_refuses_overlap) *)
+Theorem C17_span_survives_optimize_width : forall (a : calg) (x y z t mid : Z) (st st' st'' : tstate),
+  WF st -> 0 <= x <= z -> 0 <= y <= t ->
+  (forall v, ca_cov a (ca_to_cov a v) = true) -> (forall v c r, ca_span a (ca_add_span a v c r) = true) ->
+  cell_empty a true empty_cell = true ->
+  t_set_span a x y z t false mid st = Some (st', true) -> t_optimize_width a true st' = Some st'' ->
+  forall i j, x <= i <= z -> y <= j <= t -> gcell i j (abs_t st'') = gcell i j (abs_t st').
+Proof. exact span_survives_optimize_width. Qed.
+Print Assumptions C17_span_survives_optimize_width.
+
+Theorem C17_span_survives_rstrip : forall (a : calg) (aggr : bool) (x y z t mid : Z) (st st' : tstate),
+  WF st -> 0 <= x <= z -> 0 <= y <= t ->
+  (forall v, ca_cov a (ca_to_cov a v) = true) -> (forall v c r, ca_span a (ca_add_span a v c r) = true) ->
+  cell_empty a aggr empty_cell = true ->
+  t_set_span a x y z t false mid st = Some (st', true) ->
+  forall i j, x <= i <= z -> y <= j <= t -> gcell i j (abs_t (t_rstrip a aggr st')) = gcell i j (abs_t st').
+Proof. exact span_survives_rstrip. Qed.
+Print Assumptions C17_span_survives_rstrip.
+
+(* after rstrip(aggressive=True), optimize_width changes nothing (the very run-length state comes back); hence
+   rstrip(aggressive=True) o optimize_width is idempotent *)
+Theorem C17_optimize_width_after_aggressive_rstrip_is_identity : forall (a : calg) (t : tstate), WF t ->
+  t_optimize_width a true (t_rstrip a true t) = Some (t_rstrip a true t).
+Proof. exact optimize_after_aggressive_rstrip. Qed.
+Print Assumptions C17_optimize_width_after_aggressive_rstrip_is_identity.
+
+Theorem C17_rstrip_optimize_width_idempotent : forall (a : calg) (t t1 : tstate), WF t ->
+  t_optimize_width a true t = Some t1 ->
+  exists t2, t_optimize_width a true (t_rstrip a true t1) = Some t2 /\
+             abs_t (t_rstrip a true t2) = abs_t (t_rstrip a true t1).
+Proof. exact rstrip_optimize_idem. Qed.
+Print Assumptions C17_rstrip_optimize_width_idempotent.
+
+(* with aggressive=False the same composition is NOT idempotent (it stabilises at the second pass): rows
+   ["a","b","c",e,e,e] and ["x", s x5] (s = styled empty cell).  Each transformation alone is idempotent, which is all
+   the property states; the witness replays on the implementation (notes/C17.md) *)
+Theorem C17_rstrip_optimize_width_nonaggressive_not_idempotent : exists t t1 t2 : tstate, WF t /\
+  t_optimize_width plain_alg true t = Some t1 /\
+  t_optimize_width plain_alg true (t_rstrip plain_alg false t1) = Some t2 /\
+  abs_t (t_rstrip plain_alg false t2) <> abs_t (t_rstrip plain_alg false t1).
+Proof.
+  destruct rstrip_optimize_nonaggressive_witness as (Hw & t1 & t2 & H1 & H2 & H3).
+  exists ro_table, t1, t2. split; [exact Hw|]. split; [exact H1|]. split; [exact H2|exact H3].
+Qed.
+Print Assumptions C17_rstrip_optimize_width_nonaggressive_not_idempotent.
+
 (* ================= CSV (partial) ================= *)
 (* value level, the csv module (writer, Sniffer, reader) abstract: for a matrix whose values are None or in the stable
    domain (the field written for v reads back as v through _get_python_value and is not blank) and whose text the csv
@@ -200,10 +319,33 @@ Theorem C17_csv_partial : forall (V S T : Type) (none : V) (field_of : V -> S) (
               (v <> none -> v' = v) /\ (v = none -> v' = none \/ v' = pyval (field_of none)).
 Proof. exact csv_roundtrip_values. Qed.
 Print Assumptions C17_csv_partial.
-(* what is missing for a full CSV statement: the csv module itself (quoting dialect, Sniffer) and _get_python_value's
-   codec chain (int / float / Date / DateTime / Duration / Boolean decoders, C18's business) are not modelled; the
-   connection from the value matrix to the table (iter_values = the padded rows, import = append_row of each line) is
-   C01's read and step theorems *)
+(* the csv module for the comma dialect, as an executable model (Csv.v: writer with minimal quoting and doubled
+   quotes, the one-empty-field record written as two quotes; the non-strict reader automaton of _csv.c) that the
+   correspondence validates against the csv module of the running CPython on every run: it reads back every matrix of
+   fields it wrote, whatever the fields contain (commas, quotes, CR, LF, blanks) *)
+Theorem C17_csv_dialect_roundtrip : forall m : list (list field), rtext (wtext m) = m.
+Proof. exact csv_model_roundtrip. Qed.
+Print Assumptions C17_csv_dialect_roundtrip.
+
+(* C17_csv_partial with the csv module replaced by that model: no hypothesis on csv is left *)
+Theorem C17_csv_values_through_dialect_model : forall (V : Type) (none : V) (field_of : V -> field) (pyval : field -> V)
+    (blank : field -> bool) (m : list (list V)),
+  blank (field_of none) = true ->
+  (forall r v, In r m -> In v r -> v = none \/ stable V field field_of pyval blank v) ->
+  length (csv_import V field (list N) pyval blank rtext (csv_export V field (list N) field_of wtext m)) = length m /\
+  forall x y, let v := vread V none m x y in
+              let v' := vread V none (csv_import V field (list N) pyval blank rtext (csv_export V field (list N) field_of wtext m)) x y in
+              (v <> none -> v' = v) /\ (v = none -> v' = none \/ v' = pyval (field_of none)).
+Proof. exact csv_values_through_model. Qed.
+Print Assumptions C17_csv_values_through_dialect_model.
+
+(* what is still missing for a full CSV statement: (1) csv.Sniffer is a heuristic (character-frequency tables and regular
+   expressions over the first 100 lines): that it finds the comma dialect in the exported text is an assumption, which
+   the correspondence tests per case by calling the Sniffer itself; (2) _get_python_value's decoder chain (int / float /
+   Date / DateTime / Duration / Boolean, C18's business) stays the abstract pyval with the stable-domain hypothesis;
+   (3) CSV has no null: a None inside a row comes back as the value of the empty field, so C17_csv_full below is false as
+   stated (that is why it stays a Definition); (4) import_from_csv must split the text into lines as the csv module
+   expects (F123: str.splitlines also breaks at U+2028, U+0085 ...; repaired) *)
 Definition C17_csv_full : Prop :=
   forall (V S T : Type) (none : V) (field_of : V -> S) (pyval : S -> V) (blank : S -> bool)
     (csv_write : list (list S) -> T) (csv_read : T -> list (list S)) (m : list (list V)),
